@@ -557,6 +557,9 @@ def cases(ctx):
         for apps in ([0, 1], [1, 0], [2, 0, 1], [1, 2]):
             for v in (0, 1):
                 yield {"kind": "same-program", "apps": apps, "v": v}
+        for before in (0, 40000, 2**31):
+            for between in (2**8, 2**15, 2**16, 2**31, 2**32):
+                yield {"kind": "long-uptime", "before": before, "between": between}
         yield {"kind": "walk", "ops": [["init", "n0", 0, 2], ["alloc", "n0", 0, 1], ["write", "n0", 0, 3], ["stop", "n0", 0],
                                        ["init", "n0", 0, 2], ["alloc", "n0", 0, 1], ["stop", "n0", 0], ["init", "n0", 0, 1]]}
         # responses whose hand-over fails loudly: (a) the qubit is mapped, then storing the information fails - the response
@@ -610,6 +613,43 @@ def _same_program(ctx, case):
                 ctx.fail(case, f"{where}: the pair belongs to application {a}, but application {b} changed ({', '.join(diff)}): "
                                f"{ {k: (snap[k], now[k]) for k in diff} }")
                 return ctx.case(case, True)
+    ctx.case(case, True)
+
+
+def _long_uptime(ctx, case):
+    """A controller that has been up for a long time: an application waits for its pair while 65536 other subroutines come and go
+    (the run is not replayed - the subroutine counter is moved on by that many, which is all those subroutines leave behind); the
+    pair still belongs to the application that asked for it."""
+    _state["viol"] = None
+    w = World()
+    n = w.nodes["n0"]
+    ex = n["ex"]
+    if not isinstance(getattr(ex, "_next_subroutine_id", None), int):
+        ctx.count("long_uptime_not_applicable")
+        return ctx.case(case, False)
+    do_op(w, ("init", "n0", 0, 2))
+    do_op(w, ("init", "n0", 1, 2))
+    ex._next_subroutine_id += case["before"]
+    r = do_op(w, ("recv", "n0", 0, 0))
+    if r != "blocked":
+        ctx.fail(case, f"long uptime: the receiving subroutine of application 0 ends as {r} instead of waiting")
+        return ctx.case(case, True)
+    ex._next_subroutine_id += case["between"] - 3
+    for j in range(3):
+        do_op(w, ("write", "n0", 1, j))
+    r1 = do_op(w, ("recv", "n0", 1, 1))
+    before = snapshot_app(ex, "n0", 1)
+    res = w.deliver_keep("n0")
+    ctx.count("long_uptime_deliveries")
+    err = _state["viol"] or check_invariants(w, ctx, f"long uptime ({case['between']} subroutines while application 0 waits), delivery -> {res}")
+    mine = snapshot_app(ex, "n0", 0)
+    if not err and (mine["unit"][0] is None or any(x is None for x in (mine["arrays"].get(5) or [None]))):
+        err = (f"long uptime: {case['between']} subroutines ran while application 0 waited for its pair; the pair was delivered ({res}) and "
+               f"application 0's qubit is {'mapped' if mine['unit'][0] is not None else 'NOT mapped'}, its result array {mine['arrays'].get(5)}")
+    if not err and snapshot_app(ex, "n0", 1) != before:
+        err = f"long uptime: the pair of application 0 changed application 1 (waiting for its own pair: {r1})"
+    if err:
+        ctx.fail(case, err)
     ctx.case(case, True)
 
 
@@ -688,6 +728,8 @@ def run_case(ctx, case):
         _state["viol"] = None
         _sdk_walk(ctx, case)
         return ctx.case(case, True)
+    if case["kind"] == "long-uptime":
+        return _long_uptime(ctx, case)
     if case["kind"] == "same-program":
         return _same_program(ctx, case)
     if case["kind"] == "walk":
